@@ -81,10 +81,11 @@ CLAIMED = {
              "Retry / Version Negotiation / transport-parameter round trips, model encoder bytes = independent RFC encoder bytes "
              "(AQ.Model.CodecSpec), decode-then-reencode laws, error classes, and per-parameter confinement to the declared length. "
              "Tie: Buffer (C) and packet.py driven on boundary-exhaustive and random inputs (all parameter subsets in thorough) "
-             "against the compiled model and the spec encoders, plus RFC oracles in plain Python. TLS handshake message codecs are "
-             "delivered with the TLS machinery (see C11) and are not yet part of this claim.",
+             "against the compiled model and the spec encoders, plus RFC oracles in plain Python. TLS handshake messages: AQ.Props.C17tls "
+             "(uintBE/opaque/block/list combinator laws, block never reads past its declared length, round trips of Finished, "
+             "CertificateVerify, Certificate, EncryptedExtensions, ServerHello, ClientHello) + acceptance-model correspondence on mutated bytes.",
         note="Trusted: Lean kernel; standard axioms; harness/impl_codec.py; packet header decode-then-reencode is checked by "
-             "correspondence only; TLS message codecs pending.",
+             "correspondence only; TLS canonicity proved for Finished/CertificateVerify only, NewSessionTicket/CertificateRequest decoders by correspondence.",
         technique="Lean 4 algebraic round-trip laws for all inputs; differential correspondence incl. independent encoder",
         design="DESIGN.md §5 C17",
     ),
@@ -201,6 +202,34 @@ CLAIMED = {
              "session-ticket/0-RTT paired scenarios not covered.",
         technique="Lean 4 noninterference theorem on a regenerated IR (translator) + decide on the extracted program; paired-run oracle",
         design="DESIGN.md §5 C20",
+    ),
+    "C11": dict(
+        text="Lean 4 theorems (AQ.Props.C11) about the TLS machine REGENERATED from tls.py on every run (dispatch chain + ordered handler "
+             "action lists): in all 13 states the accepted handshake types equal the RFC 8446/9001 table; a refused type raises "
+             "unexpected_message with state, keys and transcript unchanged; for ALL message sequences and environments a client in "
+             "POST_HANDSHAKE passed VerifyFinished preceded by VerifySig or an offered-and-selected PSK; a raise-free run from the "
+             "EncryptedExtensions wait state is exactly the legal flight; keys are released only after the authenticating messages. "
+             "Tie: the translator (fails loudly on unknown shapes) + real tls.Context in each state x every handshake type and "
+             "key-holding adversarial flights (all permutations/sub-multisets with recomputed MACs) vs the machine's prediction; "
+             "QUIC-level runs never report HandshakeCompleted for an illegal flight.",
+        note="Trusted: Lean kernel (propext, Quot.sound); tools/extract_tls.py + tls_emit.py; Consistent/EnvOK hypothesis (flag reads "
+             "see handler-entry values, checked on every observed transition); signature/MAC primitives are library calls.",
+        technique="translator (Python ast -> Lean machine) + decide/induction over all message sequences; state x type correspondence",
+        design="DESIGN.md §5 C11",
+    ),
+    "C03": dict(
+        text="Lean 4 theorems (AQ.Props.C03): negotiate()/version selection laws (first common element; no common option => error for "
+             "cipher suites, signature algorithms, groups, ALPN, QUIC versions incl. Version Negotiation and compatible negotiation), "
+             "the generated hashing/MAC/signature/key-derivation order of every handler equals the RFC 8446 spec (transcript "
+             "coverage), client completion implies VerifyFinished + VerifySig + VerifyCert (or PSK), negotiation precedes any key "
+             "release; symbolic model: Finished binds the transcript, agreement_partial and byte_flip_blocks_partial under explicit "
+             "hash/MAC/signature hypotheses. Tie: translator (same generated machine as C11) + real client/server pairs over the "
+             "configuration lattice comparing both sides' negotiated tuple and secrets, and a message-level byte-flip "
+             "man-in-the-middle (every flipped byte must block completion on the receiving side).",
+        note="Trusted: Lean kernel; symbolic crypto assumptions are hypotheses of the _partial theorems (the computational claim is not "
+             "proved); X.509 path/hostname validation is the libraries'; AllVerify (verify_mode != CERT_NONE) for client_complete_authentic.",
+        technique="Lean 4 decision-logic and path analysis on a regenerated machine; symbolic transcript model; lattice + byte-flip correspondence",
+        design="DESIGN.md §5 C03",
     ),
 }
 NOT_YET = "machinery for this property is still under construction in this round (model/proofs/correspondence incomplete); not claimed"
